@@ -252,7 +252,8 @@ func c18Whole(c *hx.Ctx) {
 			j.prec = []int{600, 1300, 2500, 4000}[r.Intn(4)]
 		}
 		if name == "Sqrt" {
-			for vals[j.x].Neg || digitsOf(vals[j.x]) > 1400 {
+			keepNeg := r.Chance(25) // a negative operand: the call panics with ErrNaN (recovered by the job) while others are inside Sqrt
+			for (vals[j.x].Neg && !(keepNeg && vals[j.x].Form == oracle.Finite)) || digitsOf(vals[j.x]) > 1400 {
 				j.x = r.Intn(len(ops))
 			}
 			if j.prec > 400 {
@@ -356,7 +357,7 @@ func c18Whole(c *hx.Ctx) {
 		}
 	}
 
-	reps := 4
+	reps := 3
 	if c.Tier == "thorough" {
 		reps = 60
 	}
@@ -570,7 +571,7 @@ func c18Whole(c *hx.Ctx) {
 		for i, o := range divisors {
 			dbefore[i] = hx.RawOf(o)
 		}
-		per := 1200
+		per := 750
 		if c.Tier == "thorough" {
 			per = 40000
 		}
